@@ -33,6 +33,8 @@ def canon(v, depth=0):
         return (type(v).__name__,) + tuple(sorted(repr(canon(x, depth + 1)) for x in v))
     if isinstance(v, dict):
         return ("dict",) + tuple(sorted((repr(canon(k, depth + 1)), repr(canon(x, depth + 1))) for k, x in v.items()))
+    if isinstance(v, str):
+        return ("str", ADDR.sub("0xX", v))       # object addresses inside rendered text differ between processes
     if isinstance(v, float):
         return ("float", v.hex())
     if isinstance(v, (types.FunctionType, types.BuiltinFunctionType, types.MethodType)):
@@ -68,6 +70,53 @@ def run_op(o):
                 a = make_std_api(tuple(o["version"]), "pypy" if o.get("pypy") else None)
                 r = {"opmap": a.opmap, "opname": a.opname, "hasconst": a.hasconst, "hasname": a.hasname, "HAVE_ARGUMENT": a.HAVE_ARGUMENT, "EXTENDED_ARG": a.EXTENDED_ARG,
                      "version": a.python_version_tuple, "is_pypy": a.is_pypy}
+            elif k == "stdfns":
+                # the std-style functions on every code object of a file: labels, line starts, instruction rows, code info text
+                from xdis.load import load_module
+                from xdis.std import make_std_api
+                t = load_module(o["file"])
+                a = make_std_api(tuple(t[0][:2]), "pypy" if t[4] else None)
+                rows, queue = [], [t[3]]
+                while queue and len(rows) < 8:
+                    co = queue.pop(0)
+                    ins = [(i.offset, i.opcode, i.opname, i.arg, canon(i.argval), i.argrepr, bool(i.is_jump_target), i.starts_line) for i in a.get_instructions(co)]
+                    rows.append((str(co.co_name), sorted(a.findlabels(co.co_code)), [tuple(x) for x in a.findlinestarts(co)], ins, a.code_info(co)))
+                    queue += [c for c in co.co_consts if hasattr(c, "co_code")]
+                r = rows
+            elif k == "colines":
+                # line and position tables of every code object, asked twice, after a Bytecode object was built from it
+                from xdis.load import load_module
+                from xdis.disasm import get_opcode
+                from xdis.bytecode import Bytecode
+                t = load_module(o["file"])
+                opc = get_opcode(t[0], t[4])
+                rows, queue = [], [t[3]]
+                while queue and len(rows) < 8:
+                    co = queue.pop(0)
+                    b = Bytecode(co, opc)
+                    first = [(i.offset, i.starts_line) for i in b]
+                    cl = list(co.co_lines()) if hasattr(co, "co_lines") else None
+                    cl2 = list(co.co_lines()) if hasattr(co, "co_lines") else None
+                    rows.append((str(co.co_name), first, cl, cl2, [tuple(x) for x in opc.findlinestarts(co)], sorted(opc.findlabels(co.co_code, opc)), getattr(b, "exception_entries", None) and len(b.exception_entries)))
+                    queue += [c for c in co.co_consts if hasattr(c, "co_code")]
+                r = rows
+            elif k == "stackeffects":
+                from xdis.std import make_std_api
+                a = make_std_api(tuple(o["version"]), "pypy" if o.get("pypy") else None)
+                out_ = []
+                for op in range(256):
+                    for arg in (None, 0, 1, 3, 258):
+                        try:
+                            out_.append((op, arg, a.stack_effect(op, arg)))
+                        except Exception as e:
+                            out_.append((op, arg, type(e).__name__))
+                r = out_
+            elif k == "sysinfo2magic":
+                from xdis.magics import sysinfo2magic
+                r = sysinfo2magic(tuple(o["info"]))
+            elif k == "prettyflags":
+                from xdis.cross_dis import pretty_flags
+                r = pretty_flags(o["flags"], is_pypy=bool(o.get("pypy")))
             elif k == "mdumps":
                 import xdis.marsh as M
                 r = M.dumps(VALUES[o["value"]])
